@@ -683,30 +683,3 @@ func (e *Engine) accessClosed(pk string, p *Protocol) string {
 	return strings.Join(problems, "; ")
 }
 
-// ---------------------------------------------------------------------------
-// placeholders for the lock discipline (filled in by locks.go)
-
-type LockSpec struct {
-	Pkg, Where, Lock string
-	Protects         []string
-	Lines            []protoLine
-}
-
-func (l *LockSpec) parseLine(kw, rest, where string) error {
-	l.Lines = append(l.Lines, protoLine{kw, rest, where})
-	return nil
-}
-
-type Discipline struct{}
-
-func (e *Engine) newDiscipline(fn *ssa.Function) *Discipline                           { return &Discipline{} }
-func (d *Discipline) onAccess(e *Engine, st *State, p PtrV, write bool, pos token.Pos) {}
-func (d *Discipline) onMapWrite(e *Engine, st *State, m ssa.Value, pos token.Pos)      {}
-func (d *Discipline) onExternCall(e *Engine, st *State, m *types.Func, pos token.Pos)  {}
-func (d *Discipline) atReturn(e *Engine, st *State, pos token.Pos)                     {}
-func (d *Discipline) onAcquire(e *Engine, st *State, p PtrV, key string, mode lockMode, pos token.Pos) {
-}
-func (d *Discipline) onRelease(e *Engine, st *State, p PtrV, key string, mode, held lockMode, pos token.Pos) {
-}
-
-func (e *Engine) specHeld(env *SpecEnv, args []*SExpr) Value { return TTrue }
